@@ -10,7 +10,7 @@ from harness import vlib
 from harness import c15lib as L
 
 THEOREMS = [
-    "C15_agree_partial", "C15_exact_serializes",
+    "C15_agree_partial", "C15_agree_o_partial", "C15_exact_serializes", "C15_frame_o_partial",
     "C15_compositional_list", "C15_compositional_dict", "C15_compositional_tuple",
     "C15_compositional_optional", "C15_compositional_field", "C15_compositional_wrapper",
     "C15_unpack_compositional_list", "C15_unpack_compositional_dict", "C15_unpack_compositional_tuple",
@@ -20,18 +20,18 @@ THEOREMS = [
     "C15_fieldless_member_refuted", "C15_dialect_priority_refuted", "C15_union_order_observable", "C15_union_container_refuted",
 ]
 
-CASE_TYPE = "env * (bool * mode * option bool) * ty * val * res val"
+CASE_TYPE = "env * (bool * mode * opts) * ty * val * res val"
 RUN = ("(fun c => match c with (E, (isp, m, dl), t, v, ex) => "
-       "(if isp then run_pack E m dl t v else run_unpack E m t v) end)")
+       "(if isp then run_pack_o E m dl t v else run_unpack E m t v) end)")
 OK_FUN = ("fun c : (" + CASE_TYPE + ") => match c with (E, (isp, m, dl), t, v, ex) => "
-          "match (if isp then run_pack E m dl t v else run_unpack E m t v) with "
+          "match (if isp then run_pack_o E m dl t v else run_unpack E m t v) with "
           "| Err XUnmodelled => true | r => res_eqb r ex end end")
 UNMODELLED_FUN = ("fun c : (" + CASE_TYPE + ") => match c with (E, (isp, m, dl), t, v, ex) => "
-                  "match (if isp then run_pack E m dl t v else run_unpack E m t v) with "
+                  "match (if isp then run_pack_o E m dl t v else run_unpack E m t v) with "
                   "| Err XUnmodelled => false | _ => true end end")
 # in the domain of C15_agree_partial  (bad_idx lists the cases where the predicate is FALSE)
 DOMAIN_FUN = ("fun c : (" + CASE_TYPE + ") => match c with (E, (isp, m, dl), t, v, ex) => "
-              "exact E v t && no_lookalike_union E t && dialect_compat E dl && names_ok E end")
+              "exact E v t && no_lookalike_union E t && dialect_compat_o E dl && names_ok E end")
 
 
 # ---------------------------------------------------------------------------
@@ -47,7 +47,9 @@ def real_pack(sc, mod, i, obj, mode):
     Dl = dl_of(sc, mod)
     if mode == "mixin":
         W = getattr(mod, f"W{i}")
-        r = L.call(lambda: (W(f=obj).to_dict(dialect=Dl) if Dl else W(f=obj).to_dict())["f"])
+        # (a None root under a call dialect with omit_none: the wrapper drops its own field)
+        r = L.call(lambda: (W(f=obj).to_dict(dialect=Dl) if Dl else W(f=obj).to_dict()).get("f") if obj is None
+                   else (W(f=obj).to_dict(dialect=Dl) if Dl else W(f=obj).to_dict())["f"])
     else:
         T = mod.ROOTS[i]
         r = L.call(lambda: (BasicEncoder(T, default_dialect=Dl) if Dl else BasicEncoder(T)).encode(obj))
@@ -254,7 +256,7 @@ def oneshot_history(ctx, sc, mod, src, env_name):
 
 def coq_case(c: Case) -> str:
     sc = c.sc
-    dl = L.coq_optb(sc.dialect) if c.isp else "None"
+    dl = L.coq_opts(sc) if c.isp else "no_opts"
     return (f"({c.env_name}, ({'true' if c.isp else 'false'}, {'Mixin' if c.mode == 'mixin' else 'Codec'}, {dl}), "
             f"{L.coq_ty(c.ty)}, {L.coq_val(c.v)}, {L.coq_res(c.exp)})")
 
@@ -429,7 +431,7 @@ def oracle_entry_points(ctx, sc, mod, src, cls_name, v, conforming_kind):
     outs = {k: res_key(L.call(f)) for k, f in eps.items()}
     ctx.count(("ep-pack", sc.sid, cls_name, repr(v)), n=len(outs))
     ctx.hist("oracle_kind", "pack:" + conforming_kind)
-    compat = sc.dialect in (None, 'unset', 'strategy') or all(k.by_alias is None or k.by_alias == sc.dialect for k in sc.classes)
+    compat = L.scenario_compat(sc)
     names = list(outs)
     ref = names[0]
     for k in names[1:]:
@@ -899,7 +901,7 @@ def fresh_subclass_agrees(ctx, sc, mod, cn, n, Dl, kw, vals_by_root):
     from mashumaro.codecs.basic import BasicEncoder
     S = mod.__dict__.get(f"_S{n}")
     base = getattr(mod, cn)
-    compat = sc.dialect in (None, "unset", "strategy") or all(k.by_alias is None or k.by_alias == sc.dialect for k in sc.classes)
+    compat = L.scenario_compat(sc)
     if S is None or not compat:
         return None
     for i, vals in vals_by_root.items():
@@ -1116,7 +1118,7 @@ def run(ctx: vlib.Ctx):
         if cm.info.get("junk"):
             continue            # not a conforming value: outside the property (kept for the correspondence only)
         sc = cm.sc
-        compat = sc.dialect in (None, 'unset', 'strategy') or all(q.by_alias is None or q.by_alias == sc.dialect for q in sc.classes)
+        compat = L.scenario_compat(sc)
         if not compat and not in_dom and a[0] == "ok" and b[0] == "ok":
             ctx.hist("agree_domain", "skipped:dialect-priority")
             continue            # documented precedence of call dialect vs default dialect (keys differ, both succeed)
@@ -1405,6 +1407,8 @@ def scenario_from_module(mod, rep):
     from mashumaro import DataClassDictMixin
     sc = L.Scenario("replay")
     sc.dialect = rep.get("dialect")
+    dlo = getattr(mod.__dict__.get("Dl"), "omit_none", None)
+    sc.dialect_omit = dlo if isinstance(dlo, bool) else None
     names = sorted([n for n in mod.__dict__ if n.startswith("K") and n[1:].isdigit()], key=lambda s: int(s[1:]))
 
     def ty_of(tp):
@@ -1442,7 +1446,11 @@ def scenario_from_module(mod, rep):
         ba = getattr(cfg, "serialize_by_alias", None) if cfg else None
         if ba is Sentinel.MISSING:
             ba = None
-        sc.classes.append(L.Cls(n, parent, DataClassDictMixin in k.__bases__, own, cfg is not None, ba))
+        cobj = L.Cls(n, parent, DataClassDictMixin in k.__bases__, own, cfg is not None, ba)
+        on = getattr(cfg, "omit_none", None) if cfg else None
+        if isinstance(on, bool):
+            cobj.extra["omit_none"] = str(on)
+        sc.classes.append(cobj)
     sc.roots = [ty_of(t) for t in mod.ROOTS]
     return sc
 
